@@ -19,7 +19,7 @@ MetaV  == {"nil", "empty", "full"}
 NlV    == {"nil", "empty", "nodes"}
 RootsV == {"none", "one", "many", "dangling", "dup", "emptyid"}
 NodesV == {"plain", "nilnode", "dupid", "emptyid", "badenum", "rich"}
-EdgesV == {"none", "tree", "cycle", "cycle-tail", "deps-cycle", "dag", "dangling", "niledge", "dupedge", "emptyto", "selfloop"}
+EdgesV == {"none", "tree", "cycle", "cycle-tail", "island-cycle", "deps-cycle", "dup-deps", "dag", "dangling", "niledge", "dupedge", "emptyto", "selfloop"}
 DtV    == {"none", "typed", "nilall", "other-nilname", "other-named", "runtime", "badenum"}
 ExtraV == {"none", "nilperson", "nilextref", "niltool", "nilauthor", "nildoctype"}
 Shapes == [meta : MetaV, nl : NlV, roots : RootsV, nodes : NodesV, edges : EdgesV, dt : DtV, extra : ExtraV]
